@@ -76,7 +76,8 @@ CHECKS = {
              "routes) and EventQueueManager.inject_message and compared value by value; all LLSD trees of depth <= 3 (thorough: <= 4 with the full pair product "
              "at depth 2) over 59 typed leaves go through binary (+/- header), BinaryLLSD spec, notation, XML and zip under 4 process time zones and are compared "
              "against an independent tagged canonical model (LLSD type, bit-exact reals, instants in microseconds). Reals additionally include F32-widened doubles and vectors made of them, plus a sweep of every F32 exponent and every F64 exponent x mantissa patterns x signs through all six codecs, bit-exact. The event-queue consumer is driven through every {inject, rewrite-the-same-Message-in-place} sequence of length <= 3 "
-             "(thorough 4) per template and value row: each queued event must deserialize to the message as it was at injection time.",
+             "(thorough 4) per template and value row: each queued event must deserialize to the message as it was at injection time. "
+             "Plus cold-process histories: in forked children of a worker that has never converted the template, {serialize, deserialize dict} of a smaller message of the type (trailing blocks omitted, Variable counts 0, one Variable block left out) as the process's first conversion, then serialize / deserialize xml / deserialize dict of the full message, against a child that converts the full message first.",
         note="Siblings are each-choice; naive datetime is taken as UTC; strings containing CR are outside the XML route's domain (XML line-end normalisation); "
              "newline-bearing map keys are not held to the notation-newline sentence (it speaks of string values); tz database, msggen/refwire and stdlib "
              "datetime arithmetic trusted."),
@@ -206,7 +207,8 @@ CHECKS = {
              "route; a later datagram of each other name must go out exactly once) on the virtual loop. A dropped reliable message is acknowledged to its sender "
              "exactly once, also when the command or a hook failed (bookkeeping-drop-ack). Hot-reload family: real addon scripts (plain / hot_reload of a "
              "dependency) with dependency, script or both edited on disk while a session is up (reload throttle removed deterministically); datagrams around the "
-             "edits are forwarded exactly once with the script's hook invoked.",
+             "edits are forwarded exactly once with the script's hook invoked. "
+             "Plus a long-run family: n datagrams (n around 200, 256, 1024; thorough to 10001) per direction through two instances of one addon class, one failing in every hook on every datagram, with an always-failing and a healthy subscriber on each handler: every datagram forwarded exactly once with every hook invoked.",
         note="Behaviours are armed for the message under test only; pairs/triples use representative lists; async subscribers are represented by the sync take(); "
              "ownership combinations the proxy itself rejects with RuntimeError are checked for the wire and probe clauses only and counted; only Exception subclasses "
              "are raised; the reference model follows the documented dispatch rules."),
@@ -306,7 +308,8 @@ CHECKS = {
              "asserted), plus PacketAck datagrams carrying body and appended ids in every "
              "split and client sends of Messages with a preset packet_id (0, last, last-1, last+50, a received message echoed back). Twelve oracle clauses against a reference model (always ack, dispatch at most once "
              "per subscriber incl. region level, unreliable always delivered, completion exactly on ack, failure exactly at budget, ids strictly increasing). Plus a bounded-exhaustive dedupe-window family: reliable ids x bursts of W-1, W, W+1 unreliable packets x "
-             "retransmission with / without RESENT, W measured behaviourally through Circuit.track_reliable (1000).",
+             "retransmission with / without RESENT, W measured behaviourally through Circuit.track_reliable (1000). "
+             "Plus an aliasing-id family: reliable id a, one other reliable id a+delta for every delta in {2^k-1, 2^k, 2^k+1 : k <= 24} and the window sizes, both arrival orders, then both retransmitted: ids that collide in whatever index backs the dedupe window are still told apart.",
         note="Each re-registration restarts ids and the pre-re-registration history is kept in the state identity; only unreliable traffic may lie between a reliable "
              "packet and its retransmission in the window family (more than W reliable packets in between is out of scope: bounded memory). One region; at most 2 reliable and 1 unreliable client sends per history; a peer never reuses a packet id for a different message; acks and ping replies "
              "are demanded by the next loop quiescence; one 0.5 s resend-poll period of lateness allowed, never earliness; retry budget and interval read from the code; "
@@ -324,7 +327,8 @@ CHECKS = {
              "the alphabet; objects moved to an untracked region handle must stay in the session-wide full-ID index, with the harness holding no reference to "
              "them. After every event the local-ID and full-ID indices, parent/child/orphan links, the avatar view, swallowed handler exceptions and "
              "request futures are compared with an independent scene-graph model. The scene-graph sub-alphabet for one region and the request sub-alphabet for one "
-             "local ID are searched to saturation; the other searches are bounded (depth 3-6, at most 3 deviations), ~1.2 million transitions in the thorough tier.",
+             "local ID are searched to saturation; the other searches are bounded (depth 3-6, at most 3 deviations), ~1.2 million transitions in the thorough tier. "
+             "Plus a closed-form scale family: one orphan, then n prims each waiting for its own never-seen parent (n around 100, 256, 1024; thorough to 20000), then the oldest, first and last awaited parents appear (adoption in both directions) and the oldest is killed (cascade).",
         note="Universe of 3 full IDs (one avatar), 3 local IDs per region (2 in two-region searches), 2 regions; local-ID and region symmetry reductions; at most 2 "
              "pending requests; proxy settings fixed (USE_VIEWER_OBJECT_CACHE, AUTOMATICALLY_REQUEST_MISSING_OBJECTS); the model mirrors the code's documented choices "
              "for avatar kill-exemption and regionless objects and asserts nothing about them; missing_locals postconditions are observations, not violations; "
